@@ -461,6 +461,11 @@ class Interp:
     def ev_Name(self, e, fr):
         ok, v = fr.lookup(e.id)
         if ok:
+            if isinstance(v, SOpt):
+                nv = self.models.narrow(self, v)
+                if nv is not v:
+                    fr.assign(e.id, nv) if e.id in fr.locals else None
+                return nv
             return v
         return self.global_name(fr.module, e.id, e)
 
@@ -591,6 +596,10 @@ class Interp:
         self.unsupported("unary operator", e)
 
     def neg(self, v, node=None):
+        if isinstance(v, SOpt):
+            v = self.models.unopt(self, v)
+            if v is None:
+                self.raise_exc("TypeError", "bad operand type for unary -: 'NoneType'")
         if isinstance(v, bool):
             return -int(v)
         if isinstance(v, (int, float)):
@@ -844,6 +853,13 @@ class Interp:
         g = self.path.globals.get(f"{o.name}.{attr}")
         if g is not None:
             return g
+        if o.name == "numpy" and attr == "inf":
+            return float("inf")
+        if o.name == "numpy" and attr == "nan":
+            return float("nan")
+        if o.name == "numpy" and attr == "pi":
+            import math
+            return math.pi
         return BuiltinRef(f"{o.name}.{attr}")
 
     def hasattr(self, o, attr: str):
@@ -877,6 +893,7 @@ class Interp:
         if isinstance(f, BuiltinRef):
             if f.name in BUILTIN_EXC:
                 return ExcVal(f.name, args, kwargs)
+            args = [self.models.narrow(self, a) for a in args]
             return self.models.call_builtin(self, f.name, args, kwargs, node, fr)
         if isinstance(f, BoundBuiltin):
             return self.models.call_bound(self, f.recv, f.name, args, kwargs, node)
